@@ -270,6 +270,8 @@ type e2eOutcome struct {
 	reply  []byte // retained
 	rdig   string
 	stream []string
+	smsgs  [][]byte // stream messages as handed out by ReadMessage, retained
+	sdigs  []string
 }
 
 var e2ePort int32
@@ -393,6 +395,8 @@ func (c e2eCfg) options(server bool) *rpc.Options {
 		"xml": func() rpc.Codec { return &rpc.XMLCodec{} }, "msgp": func() rpc.Codec { return &rpc.MSGPCodec{} }}
 	if c.Names && (c.Body == "json" || c.Body == "code" || c.Body == "pb") {
 		o.Codec = c.Body
+		// a registered name wins over a constructor on both ends: give a different constructor as well
+		o.NewCodec = map[string]func() rpc.Codec{"json": rpc.NewCODECodec, "code": rpc.NewJSONCodec, "pb": rpc.NewJSONCodec}[c.Body]
 	} else {
 		o.NewCodec = bodyNew[c.Body]
 	}
@@ -401,6 +405,7 @@ func (c e2eCfg) options(server bool) *rpc.Options {
 	default:
 		if c.Names {
 			o.HeaderEncoder = c.Hdr
+			o.NewHeaderEncoder = map[string]func() rpc.Encoder{"pb": rpc.NewCODEEncoder, "code": rpc.NewJSONEncoder, "json": rpc.NewPBEncoder}[c.Hdr]
 		} else {
 			o.NewHeaderEncoder = map[string]func() rpc.Encoder{"pb": rpc.NewPBEncoder, "code": rpc.NewCODEEncoder, "json": rpc.NewJSONEncoder}[c.Hdr]
 		}
@@ -511,6 +516,19 @@ func runE2E(cfg e2eCfg, ops []e2eOp) *e2eRun {
 	for _, o := range run.outs {
 		if o.reply != nil && digest(o.reply) != o.rdig {
 			run.problems = append(run.problems, connVerdict{"C11", "reply-stable", "C11/reply-mutated/" + cfg.Body, fmt.Sprintf("reply bytes retained by the caller of call %d changed after later traffic", o.id)})
+			break
+		}
+	}
+	for _, o := range run.outs {
+		bad := false
+		for i, m := range o.smsgs {
+			if digest(m) != o.sdigs[i] {
+				run.problems = append(run.problems, connVerdict{"C11", "stream-message-stable", "C11/stream-message-mutated/" + cfg.Body, fmt.Sprintf("message %d read from the stream of op %d (ReadMessage with no buffer) changed after later traffic", i, o.id)})
+				bad = true
+				break
+			}
+		}
+		if bad {
 			break
 		}
 	}
@@ -740,6 +758,8 @@ func doE2EStream(cfg e2eCfg, conn *rpc.Conn, o e2eOp) *e2eOutcome {
 				return false
 			}
 			got = append(got, string(m.Data))
+			out.smsgs = append(out.smsgs, m.Data)
+			out.sdigs = append(out.sdigs, digest(m.Data))
 			return true
 		case <-time.After(3 * time.Second):
 			got = append(got, "TIMEOUT")
